@@ -72,11 +72,33 @@ SPECS = [
 ]
 
 
-def _scribble():
-  """What gin.current_scope() hands out belongs to the caller: a callee that edits it changes nothing in Gin."""
+def _mutate(v):
+  if isinstance(v, list):
+    v.append('consumed')
+  elif isinstance(v, tuple):
+    for x in v:
+      _mutate(x)
+
+
+def seen(v):
+  """What a callee that received a private copy of the bound value `v` holds after consuming it (see _scribble)."""
+  if isinstance(v, list):
+    return list(v) + ['consumed']
+  if isinstance(v, tuple):
+    return tuple(seen(x) for x in v)
+  return v
+
+
+def _scribble(rec=None):
+  """What gin.current_scope() hands out belongs to the caller: a callee that edits it changes nothing in Gin.  Nor does
+  a callee that consumes (mutates) the mutable parts of the values it was given: the next call receives the bound
+  value again."""
   sc = gin.current_scope()
   sc.append('s')
   sc.insert(0, 't')
+  for k, v in (rec or {}).items():
+    if k not in ('args', 'kw'):
+      _mutate(v)
 
 
 def _mk_fn(name, sig, names, varargs, varkw):
@@ -86,7 +108,7 @@ def _mk_fn(name, sig, names, varargs, varkw):
   if varkw:
     rec += ', kw=kw'
   ns = {'REC': REC, 'SCRIBBLE': _scribble}
-  exec('def %s(%s):\n  REC.append(dict(%s))\n  SCRIBBLE()\n  return "ret"\n' % (name, sig, rec), ns)  # pylint: disable=exec-used
+  exec('def %s(%s):\n  REC.append(dict(%s))\n  SCRIBBLE(REC[-1])\n  return "ret"\n' % (name, sig, rec), ns)  # pylint: disable=exec-used
   fn = ns[name]
   fn.__module__ = 'c01probes'
   return fn
@@ -100,9 +122,9 @@ def _mk_cls(name, sig, names, varargs, varkw, how):
     rec += ', kw=kw'
   ns = {'REC': REC, 'SCRIBBLE': _scribble}
   if how == 'init':
-    src = 'class %s:\n  def __init__(self, %s):\n    REC.append(dict(%s))\n    SCRIBBLE()\n' % (name, sig, rec)
+    src = 'class %s:\n  def __init__(self, %s):\n    REC.append(dict(%s))\n    SCRIBBLE(REC[-1])\n' % (name, sig, rec)
   else:
-    src = ('class %s:\n  def __new__(cls, %s):\n    REC.append(dict(%s))\n    SCRIBBLE()\n    return super().__new__(cls)\n' %
+    src = ('class %s:\n  def __new__(cls, %s):\n    REC.append(dict(%s))\n    SCRIBBLE(REC[-1])\n    return super().__new__(cls)\n' %
            (name, sig, rec))
   exec(src, ns)  # pylint: disable=exec-used
   c = ns[name]
@@ -179,10 +201,10 @@ def setup():
     sh.cname, sh.reg = cname, reg
     SHAPES[cname] = sh
   # a registered method on a registered class
-  ns = {'REC': REC, 'gin': gin}
+  ns = {'REC': REC, 'gin': gin, 'SCRIBBLE': _scribble}
   exec('class KM:\n'
        '  def __init__(self):\n    pass\n'
-       '  def meth(self, a, b="db", *, k="dk"):\n    REC.append(dict(a=a, b=b, k=k))\n    return "ret"\n', ns)
+       '  def meth(self, a, b="db", *, k="dk"):\n    REC.append(dict(a=a, b=b, k=k))\n    SCRIBBLE(REC[-1])\n    return "ret"\n', ns)
   KM = ns['KM']
   KM.__module__ = 'c01probes'
   KM.meth.__module__ = 'c01probes'
@@ -211,7 +233,7 @@ def setup():
   for order in ('fn_first', 'bound_first'):
     kname = 'KB_' + order
     exec('class %s:\n'
-         '  def step(recv, a, b="db", *, k="dk"):\n    REC.append(dict(recv=recv, a=a, b=b, k=k))\n    return "ret"\n'
+         '  def step(recv, a, b="db", *, k="dk"):\n    REC.append(dict(recv=recv, a=a, b=b, k=k))\n    SCRIBBLE(dict(a=a, b=b, k=k))\n    return "ret"\n'
          % kname, ns)
     KB = ns[kname]
     KB.__module__ = 'c01probes'
@@ -309,13 +331,28 @@ def splits(sh):
   return out
 
 
+class Bindings(dict):
+  """(scope, parameter) -> bound object, plus a private copy of each value taken when it was bound."""
+
+  def __init__(self, items=()):
+    super().__init__()
+    self.pristine = {}
+    for k, v in dict(items).items():
+      self[k] = v
+
+  def __setitem__(self, k, v):
+    import copy  # pylint: disable=import-outside-toplevel
+    self.pristine[k] = copy.deepcopy(v)
+    super().__setitem__(k, v)
+
+
 def overlay(bindings, eff):
   ov = {}
   for i in range(len(eff) + 1):
     sc = '/'.join(eff[:i])
     for (s, p), v in bindings.items():
       if s == sc:
-        ov[p] = v
+        ov[p] = bindings.pristine[(s, p)]  # (the stored object must never be what a callee gets to consume)
   return ov
 
 
@@ -372,7 +409,7 @@ def run_call(sh, fn, split, bindings, eff, res, desc):
         elif p in ov:
           res.w('positional_beats_binding' if p in sh.pos[:npos] else 'keyword_beats_binding')
       else:
-        if isinstance(got[p], (EqAll, EqRaises)) or got[p] != v:
+        if isinstance(got[p], (EqAll, EqRaises)) or got[p] != seen(v):
           res.violation('wrong_binding', '%s: parameter %s received %r, model says binding %r (overlay of %r)' %
                         (desc, p, got[p], v, eff), desc)
         else:
@@ -408,6 +445,9 @@ def val(p, sc):
   which are bound values like any other."""
   if sc in _FALSY and p != 'z':
     return _FALSY[sc]
+  if sc == 's' and p != 'z':
+    # a tuple nested in a tuple, holding a mutable part (built afresh on every call of val)
+    return ((['%s@%s' % (p, sc)], 3), 'tag')
   return '%s@%s' % (p, sc)
 
 
@@ -462,7 +502,7 @@ _ABORTS = [0]
 def install(sh, sel, keys):
   """Hard reset, then bind tagged sentinels for the given (scope, param) keys and the consumer references."""
   harness.hard_reset()
-  bindings = {(sc, p): val(p, sc) for sc, p in keys}
+  bindings = Bindings({(sc, p): val(p, sc) for sc, p in keys})
   for (sc, p), v in bindings.items():
     gin.bind_parameter((sc, sel, p), v)
   for ri, rsc in enumerate(['', 's', 's/t']):
@@ -645,7 +685,8 @@ def locked_phase(sh, sel, bindings, keys, ACTIVE, spl, res):
 def replay(desc):
   res = core.Result()
   if desc[0] in ('query', 'gb', 'gbs'):
-    return run_shard([desc[1], None], 'thorough')
+    r = run_shard([desc[1], None], 'quick')      # (the whole shape: these observations depend on the calls made before)
+    return r if r.violations else run_shard([desc[1], None], 'thorough')
   cname, keys, act, path, form, modes, npos, xpos, xkw = desc[:9]
   sh = SHAPES[cname]
   sel = selector_of(sh)
@@ -656,6 +697,8 @@ def replay(desc):
     locked_phase(sh, sel, bindings, [tuple(k) for k in keys], ACTIVE, splits(sh), res)
     harness.hard_reset()
     return res
+  # (in the enumeration every call but the first of an installation follows other calls: replay it after one identical call)
+  exec_path(sh, sel, bindings, act, path, form, split, core.Result(), desc)
   exec_path(sh, sel, bindings, act, path, form, split, res, desc)
   harness.hard_reset()
   return res
